@@ -11,8 +11,8 @@ ENGINE = {'name': 'socks5',
  'timeout': 900,
  'shard': 100,
  'serves': ['C16'],
- 'rule': 'configurations = 10 command sets (default, each single command, all three, lower/mixed case, via {env.*} placeholders, three that '
-         'Provision must reject) x 11 credential maps (none; one user; three users; only an empty user name; empty name + a user; empty password; '
+ 'rule': 'configurations = 12 command sets (default, each single command, two pairs, all three, lower/mixed case, via {env.*} placeholders, '
+         'three that Provision must reject) x 11 credential maps (none; one user; three users; only an empty user name; empty name + a user; empty password; '
          'placeholders with values; a placeholder key that expands to nothing; unknown placeholders inside names; braces that are not placeholders '
          'and escaped braces; empty-expanding key and value). Scripted clients: (1) for every configuration CONNECT/BIND/UDP ASSOCIATE by a valid '
          'client, seven kinds of wrong sub-negotiation (wrong password, unknown user, empty user, empty password, the raw placeholder text, wrong '
